@@ -474,12 +474,13 @@ where
                 &mut preprocessor_args
             }
             Some(DepArgumentPath(_)) | Some(NeedDepTarget) => &mut dependency_args,
+            // The compiler only writes the diagnostics file when it is told to.
+            Some(SerializeDiagnostics(_)) => &mut common_args,
             Some(DoCompilation)
             | Some(Language(_))
             | Some(Output(_))
             | Some(XClang(_))
-            | Some(DepTarget(_))
-            | Some(SerializeDiagnostics(_)) => continue,
+            | Some(DepTarget(_)) => continue,
             Some(TooHardFlag) | Some(TooHard(_)) => unreachable!(),
             None => match arg {
                 Argument::Raw(_) => continue,
